@@ -182,6 +182,12 @@ def _lattice(config):
         for k in kinds:
             for fn in ("add_array", "radd_array", "kron_array", "dot_array"):
                 yield {"fn": fn, "kind": k, "annot": None, "dt": dt, "shape": "square"}
+            # one operator object combined with a view of itself (Gram pairs, symmetrisations): X itself being the operator, a
+            # lazy or an eager transpose / adjoint of it
+            for view in ("id", "T", "H", "Tctor", "Hctor"):
+                for form in ("X@XT", "X@XH", "XT@X", "XH@X", "X+XT", "X+XH", "X-XH", "kron(X,XT)", "kronsum(X,XH)", "XT@X@X", "(XH@X)@(XH@X)"):
+                    for an in (None, "SelfAdjoint"):
+                        yield {"fn": "selfpair", "kind": k, "annot": an, "dt": dt, "shape": "square", "view": view, "form": form}
     # non-square operands for the functions that admit them
     rk = sorted(rect_instances().keys())
     for k in rk:
@@ -193,6 +199,10 @@ def _lattice(config):
                 yield dict(base, fn="pinv", alg=a)
             for a in [OMIT, "Auto", "Auto(tol)", "DenseSVD", "Lanczos", "LOBPCG"]:
                 yield dict(base, fn="svd", alg=a, k=2)
+    for k in rk:
+        for view in ("id", "T", "H", "Tctor", "Hctor"):
+            for form in ("X@XT", "X@XH", "XT@X", "XH@X", "kron(X,XT)", "(XH@X)@(XH@X)"):
+                yield {"fn": "selfpair", "kind": k, "annot": None, "dt": "f8", "shape": "tall", "view": view, "form": form}
     for k1, k2 in itertools.product(rk, rk):
         for fn in ("add", "kron", "dotT"):
             yield {"fn": fn, "kind": k1, "kind2": k2, "annot": None, "annot2": None, "dt": "f8", "shape": "tall"}
@@ -231,6 +241,13 @@ def execute(t, AL):
             return cola.kron(A, B2)
         if fn == "kronsum":
             return cola.kronsum(A, B2)
+    if fn == "selfpair":
+        X = {"id": lambda: A, "T": lambda: A.T, "H": lambda: A.H, "Tctor": lambda: ops.Transpose(A), "Hctor": lambda: ops.Adjoint(A)}[t["view"]]()
+        f = t["form"]
+        out = {"X@XT": lambda: X @ X.T, "X@XH": lambda: X @ X.H, "XT@X": lambda: X.T @ X, "XH@X": lambda: X.H @ X, "X+XT": lambda: X + X.T,
+               "X+XH": lambda: X + X.H, "X-XH": lambda: X - X.H, "kron(X,XT)": lambda: cola.kron(X, X.T), "kronsum(X,XH)": lambda: cola.kronsum(X, X.H),
+               "XT@X@X": lambda: X.T @ X @ X, "(XH@X)@(XH@X)": lambda: (X.H @ X) @ (X.H @ X)}[f]()
+        return out @ np.ones((out.shape[1], ), dtype=dtype)
     arr = np.ones(A.shape, dtype=dtype)
     if fn == "add_array":
         return A + arr
